@@ -548,7 +548,7 @@ def generic_check(mod, tier, seed):
                        "" if corr_ok else "%d mismatches, e.g. %s" % (len(mismatching), mismatching[0].to_json()))
     if not failing:
         if mismatching:
-            c = shrink_case(mod, binpath, mismatching[0], lambda x: x.model != x.impl)
+            c = shrink_case(mod, binpath, mismatching[0], lambda x: corr_mismatch(mod, x))
             p = write_replay(mod.ID, "correspondence", {
                 "property": mod.ID, "obligation": "T4 correspondence (model = implementation)",
                 "note": "model and implementation disagree; the property predicate held on every explored input",
@@ -573,8 +573,19 @@ def generic_check(mod, tier, seed):
         outcomes[k] = outcomes.get(k, 0) + 1
     return finish(res, mod, samples, len(cases), nontriv, mod.RULE,
                   {"generator_distribution": dist, "impl_outcome_kinds": outcomes,
+                   "unmodelled_cases": sum(1 for c in cases if c.model == getattr(mod, "UNMODELLED", None)),
                    "search_tier": search_tier,
                    "theorems": [{"name": t["name"], "axioms": t["axioms"]} for t in ths]})
+
+
+def corr_mismatch(mod, c):
+    """model != implementation, unless the oracle answered the module's explicit `UNMODELLED` marker
+    (no model for that format yet: no correspondence obligation for this case; the module must list
+    the gap under PARTIAL)"""
+    unm = getattr(mod, "UNMODELLED", None)
+    if unm is not None and c.model == unm:
+        return False
+    return c.model != c.impl
 
 
 def classify_known(mod, c, known):
@@ -596,11 +607,11 @@ def classify_cases(mod, cases, known, res):
                 cnt = res.known.get(fid, (e["what"], 0))[1] + 1
                 res.known[fid] = (e["what"], cnt)
                 # a known finding must still be modelled faithfully
-                if c.model != c.impl:
+                if corr_mismatch(mod, c):
                     mismatching.append(c)
             else:
                 failing.append(c)
-        elif c.model != c.impl:
+        elif corr_mismatch(mod, c):
             mismatching.append(c)
     return failing, mismatching
 
